@@ -81,6 +81,19 @@ def correspondence(ctx):
         GC.simple_layout(s, blocks)
         s.meta = {"extra-coinbase": k}
         scns.append(s)
+    # a coinbase is a transaction with exactly one input naming the null outpoint — whatever its scriptSig (empty, one byte, 101 or
+    # 100 000 bytes) and whatever the block version: its first-output value above the subsidy counts as fee
+    for k, sig in enumerate([b"", b"\x01", b"\x00\x00", b"\x07" * 100, b"\x07" * 101, b"\x07" * 150, b"\x07" * 100000, b"\x03\xaa\xbb"]):
+        coin = K.COINS[k % 8]
+        blocks = []
+        for h in range(3):
+            cbt = K.Tx([(b"\0" * 32, 0xffffffff, sig if h > 0 else b"\x02\x00\x00", 0xffffffff)], [(GC.subsidy(h) + 12345 + h, GC.spk(r, coin, "p2pkh"))])
+            blocks.append(K.Block([cbt, K.Tx([(GC.rb(r, 32), 0, b"\x01\x01", 1)], [(5, GC.spk(r, coin, "p2sh"))])], time=1000 + 600 * h, version=r.choice([1, 2, 4])))
+        GH.link(blocks)
+        s = K.Scenario(coin=coin, callback="simplestats")
+        GC.simple_layout(s, blocks)
+        s.meta = {"coinbase-sig-len": len(sig)}
+        scns.append(s)
     # ties for both maxima: identical-value / identical-size txs in different blocks
     for k in range(ctx.n(6, 40)):
         out = (12345, GC.spk(r, "bitcoin", "p2pkh"))
